@@ -208,7 +208,9 @@ def run(ch: Choices, opts: Dict[str, Any]) -> Dict[str, Any]:
             stmts = templatise(stmts, ch, counter)
         names: List[str] = []
         templates_in(stmts, names)
-        values = {nm: ch.draw(32, "tval") for nm in names}
+        # mostly ordinary numerators; sometimes values at and beyond the 8-bit immediate (both routes wrap those alike)
+        BIG = [254, 255, 256, 257, 300, 511]
+        values = {nm: (ch.draw(32, "tval") if not ch.flag(1, 6, "tbig") else BIG[ch.draw(len(BIG), "tbigv")]) for nm in names}
         gen.flush_stmt()
         # a compiled subroutine may be committed later: after the next segment's operations were issued
         defer = pre and si < n_seg - 1 and ch.flag(1, 3, "defer")
